@@ -211,6 +211,70 @@ func fixedGraphs() []*ggraph {
 			{1, "ns", "", "n1"}, {3, "ns", "", "n3"}, {2, "named", "x", "x2"}}
 		out = append(out, finish(&ggraph{mods: []*gmod{e, l1, l2, l3}, shape: "fixed-dyn-cjs-" + ep, rootType: "module", subType: "module"}))
 	}
+	// 21-24. diamonds of export stars whose shared descendant lies two or three star levels below the
+	// join, with the contested name shadowed on exactly one path: lib: export * from a; export * from b;
+	// a: export * from c; export var x (the shadow); b: export * from c; c: export * from d (or through
+	// one more level); d: export var x, y.  x is ambiguous in lib (a's own binding against d's through
+	// b), so lib's namespace and exports have y but not x - whichever path is traversed first.  Seen
+	// through an importer's namespace import and as the entry's own exports
+	for _, v := range []struct {
+		name           string
+		shadowFirst    bool
+		levels         int
+		libIsEntry     bool
+		shadowOnBranch int // 0: the branch module itself exports x; 1: a module between the branch and the join does
+	}{{"fixed-stardiamond-shadow-first", true, 1, false, 0}, {"fixed-stardiamond-shadow-last", false, 1, false, 0},
+		{"fixed-stardiamond-deep-entry", true, 2, true, 0}, {"fixed-stardiamond-mid-shadow", true, 1, false, 1}} {
+		var mods []*gmod
+		base := 1
+		if v.libIsEntry {
+			base = 0
+		} else {
+			mods = append(mods, esm(0, "e.mjs"))
+		}
+		add := func(path string) *gmod {
+			m := esm(len(mods), path)
+			mods = append(mods, m)
+			return m
+		}
+		lib := add("lib.mjs")
+		if v.libIsEntry {
+			lib.path = "e.mjs"
+		}
+		a, b := add("a.mjs"), add("b.mjs")
+		shadow := a
+		if v.shadowOnBranch == 1 {
+			a2 := add("a2.mjs")
+			a.stars = []int{a2.id}
+			a.locals = []localExport{v2("fromA")}
+			shadow = a2
+		}
+		c := add("c.mjs")
+		shadow.stars = []int{c.id}
+		shadow.locals = append(shadow.locals, v2("x"), v2("w"))
+		b.stars = []int{c.id}
+		b.locals = []localExport{v2("fromB")}
+		cur := c
+		for i := 1; i < v.levels; i++ {
+			nx := add(fmt.Sprintf("c%d.mjs", i+1))
+			cur.stars = []int{nx.id}
+			cur = nx
+		}
+		d := add("d.mjs")
+		cur.stars = []int{d.id}
+		d.locals = []localExport{v2("x"), v2("y"), {"z", "function"}}
+		if v.shadowFirst {
+			lib.stars = []int{a.id, b.id}
+		} else {
+			lib.stars = []int{b.id, a.id}
+		}
+		lib.locals = []localExport{v2("own")}
+		if base == 1 {
+			mods[0].imports = []gimport{{lib.id, "ns", "", "nl"}, {lib.id, "named", "y", "ly"}, {a.id, "ns", "", "na"}, {b.id, "ns", "", "nb"},
+				{a.id, "named", "x", "ax"}, {b.id, "named", "x", "bx"}}
+		}
+		out = append(out, finish(&ggraph{mods: mods, shape: v.name, rootType: "module", subType: "module"}))
+	}
 	// 18. repaired finding C02-A (fix a7bd0a8), must pass: one binding exported under two names and
 	// re-exported to the same name along two export-star paths is not ambiguous
 	out = append(out, aliasTwoNamesGraph())
